@@ -148,6 +148,7 @@ type Case struct {
 	Args    []string      // extra args for other modes
 	KeepWd  bool          // do not (re)create sources; re-run in place
 	RunNo   int           // run number inside the same root (separate meta files)
+	KillAtTraceLine int   // > 0: SIGKILL the process group as soon as the command trace has this many lines (a logical instant)
 }
 
 // Result is what was observed.
@@ -287,6 +288,24 @@ func (c *Case) Run() *Result {
 	pgid := cmd.Process.Pid
 	done := make(chan error, 1)
 	go func() { done <- cmd.Wait() }()
+	stopWatch := make(chan struct{})
+	defer close(stopWatch)
+	if c.KillAtTraceLine > 0 {
+		go func() {
+			for {
+				select {
+				case <-stopWatch:
+					return
+				default:
+				}
+				if b, err := os.ReadFile(tracePath); err == nil && bytes.Count(b, []byte("\n")) >= c.KillAtTraceLine {
+					syscall.Kill(-pgid, syscall.SIGKILL)
+					return
+				}
+				time.Sleep(300 * time.Microsecond)
+			}
+		}()
+	}
 	var werr error
 	select {
 	case werr = <-done:
